@@ -138,8 +138,61 @@ func leanStrList(items []string) string {
 
 // ---- error sites -------------------------------------------------------------------------------------
 
+// boolConsts: the package-level boolean constants (`const fatal = true`), so that a failure flag written as a named
+// constant reads like the literal it stands for
+func (p *pkgFiles) boolConsts() map[string]string {
+	res := map[string]string{}
+	for _, f := range p.files {
+		for _, d := range f.Decls {
+			gd, ok := d.(*ast.GenDecl)
+			if !ok || gd.Tok != token.CONST {
+				continue
+			}
+			for _, sp := range gd.Specs {
+				vs := sp.(*ast.ValueSpec)
+				for i, n := range vs.Names {
+					if i < len(vs.Values) {
+						if v := exprStr(vs.Values[i]); v == "true" || v == "false" {
+							res[n.Name] = v
+						}
+					}
+				}
+			}
+		}
+	}
+	// constants defined through other constants (`nonFatal = !fatal`, `x = fatal`)
+	for round := 0; round < 3; round++ {
+		for _, f := range p.files {
+			for _, d := range f.Decls {
+				gd, ok := d.(*ast.GenDecl)
+				if !ok || gd.Tok != token.CONST {
+					continue
+				}
+				for _, sp := range gd.Specs {
+					vs := sp.(*ast.ValueSpec)
+					for i, n := range vs.Names {
+						if i >= len(vs.Values) {
+							continue
+						}
+						v := exprStr(vs.Values[i])
+						neg := strings.HasPrefix(v, "!")
+						if w, ok := res[strings.TrimPrefix(v, "!")]; ok {
+							if neg {
+								w = map[string]string{"true": "false", "false": "true"}[w]
+							}
+							res[n.Name] = w
+						}
+					}
+				}
+			}
+		}
+	}
+	return res
+}
+
 func errorSites(p *pkgFiles) []string {
 	var res []string
+	consts := p.boolConsts()
 	p.funcs(func(file string, fd *ast.FuncDecl) {
 		var stack []ast.Node
 		ast.Inspect(fd.Body, func(n ast.Node) bool {
@@ -159,6 +212,9 @@ func errorSites(p *pkgFiles) []string {
 			typ := exprStr(c.Args[1])
 			typ = strings.TrimPrefix(typ, "errors.")
 			flag := exprStr(c.Args[2])
+			if v, ok := consts[flag]; ok {
+				flag = v
+			}
 			// is the call the init of an `if err := …; err != nil { return … }` (or an assignment followed by a return in the if body)?
 			guarded := false
 			for i := len(stack) - 2; i >= 0 && i >= len(stack)-4; i-- {
@@ -876,7 +932,8 @@ func costSitesTyped(p *pkgFiles, info *types.Info) []string {
 					bounded = true
 				}
 				if !bounded && ((isStringType(from) && toSlice) || (fromSlice && isStringType(to))) {
-					add(fn, "copying conversion "+types.TypeString(to, nil)+"("+exprStr(x.Args[0])+")")
+					// named by the ROOT of the operand: `string(runes[0:l])`, `string(runes[:3])` and `string(runes)` are the same site
+					add(fn, "copying conversion "+types.TypeString(to, nil)+"("+exprStr(rootOfSlice(x.Args[0]))+")")
 				}
 				return
 			}
